@@ -696,6 +696,7 @@ tre_copy_ast(tre_mem_t mem, tre_stack_t *stack, tre_ast_node_t *ast,
 	reg_errcode_t status = REG_OK;
 	int bottom = tre_stack_num_objects(stack);
 	int num_copied = 0;
+	int pos_lo = 0, pos_hi = -1;
 	int first_tag = 1;
 	tre_ast_node_t **result = copy;
 	tre_copyast_symbol_t symbol;
@@ -727,9 +728,14 @@ tre_copy_ast(tre_mem_t mem, tre_stack_t *stack, tre_ast_node_t *ast,
 				int max = lit->code_max;
 				if (!IS_SPECIAL(lit) || IS_BACKREF(lit))
 				{
-					/* XXX - e.g. [ab] has only one position but two
-					   nodes, so we are creating holes in the state space
-					   here.  Not fatal, just wastes memory. */
+					/* Remember the range of positions used by the copied
+					   subtree.  The numbering may have holes (`x{0}' drops
+					   `x' after its positions were assigned) and several
+					   nodes may share one position (`[ab]'), so the next
+					   copy must be shifted by the width of the range, not
+					   by the number of nodes. */
+					if (num_copied == 0 || pos < pos_lo) pos_lo = pos;
+					if (num_copied == 0 || pos > pos_hi) pos_hi = pos;
 					pos += *pos_add;
 					num_copied++;
 				}
@@ -822,7 +828,8 @@ tre_copy_ast(tre_mem_t mem, tre_stack_t *stack, tre_ast_node_t *ast,
 			break;
 		}
 	}
-	*pos_add += num_copied;
+	if (num_copied > 0)
+		*pos_add += pos_hi - pos_lo + 1;
 	return status;
 }
 
@@ -842,13 +849,11 @@ tre_expand_ast(tre_mem_t mem, tre_stack_t *stack, tre_ast_node_t *ast,
 	reg_errcode_t status = REG_OK;
 	int bottom = tre_stack_num_objects(stack);
 	int pos_add = 0;
-	int pos_add_total = 0;
 	int max_pos = 0;
 	/* Current approximate matching parameters. */
 	int params[TRE_PARAM_LAST];
 	/* Approximate parameter nesting level. */
 	int params_depth = 0;
-	int iter_depth = 0;
 	int i;
 
 	for (i = 0; i < TRE_PARAM_LAST; i++)
@@ -915,7 +920,6 @@ tre_expand_ast(tre_mem_t mem, tre_stack_t *stack, tre_ast_node_t *ast,
 				   will get done when expanding. */
 				if (iter->min > 1 || iter->max > 1)
 					pos_add = 0;
-				iter_depth++;
 				DPRINT(("iter\n"));
 				break;
 			}
@@ -927,14 +931,19 @@ tre_expand_ast(tre_mem_t mem, tre_stack_t *stack, tre_ast_node_t *ast,
 		case EXPAND_AFTER_ITER:
 		{
 			tre_iteration_t *iter = node->obj;
-			int pos_add_last;
-			pos_add = tre_stack_pop_int(stack);
-			pos_add_last = pos_add;
+			int pos_add_outer = tre_stack_pop_int(stack);
 			if (iter->min > 1 || iter->max > 1)
 			{
 				tre_ast_node_t *seq1 = NULL, *seq2 = NULL;
 				int j;
-				int pos_add_save = pos_add;
+				/* The argument was laid out with `pos_add' restarted from zero, so
+				   `pos_add' now holds the number of positions added inside it by
+				   nested expansions.  Positions following this node must be shifted
+				   by that amount too, not only by the copies made here. */
+				int pos_add_inner = pos_add;
+				int pos_add_save;
+				pos_add = pos_add_outer;
+				pos_add_save = pos_add;
 
 				/* Create a catenated sequence of copies of the node. */
 				for (j = 0; j < iter->min; j++)
@@ -996,7 +1005,7 @@ tre_expand_ast(tre_mem_t mem, tre_stack_t *stack, tre_ast_node_t *ast,
 					}
 				}
 
-				pos_add = pos_add_save;
+				pos_add = pos_add_save + pos_add_inner;
 				if (seq1 == NULL)
 					seq1 = seq2;
 				else if (seq2 != NULL)
@@ -1007,10 +1016,8 @@ tre_expand_ast(tre_mem_t mem, tre_stack_t *stack, tre_ast_node_t *ast,
 				node->type = seq1->type;
 			}
 
-			iter_depth--;
-			pos_add_total += pos_add - pos_add_last;
-			if (iter_depth == 0)
-				pos_add = pos_add_total;
+			/* An iteration that is not expanded keeps the running `pos_add':
+			   it already includes what nested expansions added. */
 
 			/* If approximate parameters are specified, surround the result
 			   with two parameter setting nodes.  The one on the left sets
@@ -1066,7 +1073,7 @@ tre_expand_ast(tre_mem_t mem, tre_stack_t *stack, tre_ast_node_t *ast,
 		}
 	}
 
-	*position += pos_add_total;
+	*position += pos_add;
 
 	/* `max_pos' should never be larger than `*position' if the above
 	   code works, but just an extra safeguard let's make sure
